@@ -141,6 +141,18 @@ def run_pls(ex):
     close(list(model.get_beta_coefficients(k)), list(BT[: dims[7]]), "PLS beta coefficients")
     pr = model.predict(N)     # all latent variables
     close(flat(pr[0]), list(PR[: dims[5] * dims[6]]), "PLS.predict vs PLSYPredictorAllLV from C")
+    # predict with a given number of latent variables: the block of that latent variable (one value per response) of the same table
+    nr, ncol = dims[5], dims[6]
+    for a_ in range(1, k + 1):
+        pa = model.predict(N, nlv_=a_)[0]
+        ref = [PR[r_ * ncol + (a_ - 1) * ny + j_] for r_ in range(nr) for j_ in range(ny)]
+        need(len(pa) == nr and all(len(row) == ny for row in pa), "PLS.predict(x, nlv_=%d) returned %d x %d values for %d objects and %d responses" % (a_, len(pa), len(pa[0]) if pa else 0, nr, ny))
+        close(flat(pa), ref, "PLS.predict(x, nlv_=%d) vs the %d-LV block of PLSYPredictorAllLV from C" % (a_, a_))
+    # the low-level wrappers of the same calls
+    xs_ = mx.new_matrix(N); sc_ = mx.init_matrix(); pls.pls_score_predictor(xs_, model.model, k, sc_)
+    py_ = mx.init_matrix(); pls.pls_y_predictor(sc_, model.model, k, py_)
+    close(flat(mx.matrix_to_list(py_)), [PR[r_ * ncol + (k - 1) * ny + j_] for r_ in range(nr) for j_ in range(ny)], "pls_y_predictor vs PLSYPredictorAllLV from C")
+    for o_ in (xs_, sc_, py_): mx.del_matrix(o_)
     mc = model.model.contents
     for name in ("xscores", "xloadings", "xweights", "yscores", "yloadings", "recalculated_y", "recalc_residuals"): same_matrix(getattr(mc, name), "PLSMODEL.%s read through _fields_" % name)
     for name in ("b", "xvarexp", "xcolaverage", "xcolscaling", "ycolaverage", "ycolscaling"): same_dvector(getattr(mc, name), "PLSMODEL.%s read through _fields_" % name)
@@ -167,6 +179,10 @@ def run_select(ex):
     a = clustering.most_descriptive_compound(X, nsel); b = clustering.max_dissimilarity_selection(X, nsel)
     ma = sarr([0] * nsel); mb = sarr([0] * nsel); VD.vd_select(darr(flat(X)), ctypes.c_size_t(n), ctypes.c_size_t(p), ctypes.c_size_t(nsel), ctypes.c_size_t(os.cpu_count()), ma, mb)
     need(list(a) == list(ma[:nsel]), "most_descriptive_compound %r vs MDC from C %r" % (a, list(ma[:nsel]))); need(list(b) == list(mb[:nsel]), "max_dissimilarity_selection %r vs MaxDis_Fast from C %r" % (b, list(mb[:nsel])))
+    # the same selections with a Matrix object instead of a list
+    Xm = mx.Matrix(X)
+    a2 = clustering.most_descriptive_compound(Xm, nsel); b2 = clustering.max_dissimilarity_selection(Xm, nsel)
+    need(list(a2) == list(a) and list(b2) == list(b), "selection from a Matrix object differs from the selection from the same data as a list")
     km = clustering.k_means_plus_plus(X, min(2, n)); need(len(km) == n and all(0 <= int(v) < 2 for v in km), "k_means_plus_plus labels")
     return nsel >= 3
 
